@@ -13,12 +13,14 @@ fn b64_nopad(b: &[u8]) -> String { b64(b).trim_end_matches('=').to_string() }
 /// base64url with the padding a standard encoder adds
 fn b64u_padded(b: &[u8]) -> String { let mut s = b64u(b); while s.len() % 4 != 0 { s.push('='); } s }
 
-fn leaf_bytes(ctx: &mut Ctx, text: &str) {
+fn leaf_bytes(ctx: &mut Ctx, text: &str) { leaf_bytes_of(ctx, text, None) }
+/// `value`: the byte string `text` is a presentation of (the statement: every presentation parses to it)
+fn leaf_bytes_of(ctx: &mut Ctx, text: &str, value: Option<&[u8]>) {
     let doc = format!("{{\"challenge\":{}}}", text);
     let r = guarded(|| serde_json::from_str::<PublicKeyCredentialRequestOptions>(&doc));
     let obs = match r { None => "panic".to_string(), Some(Ok(o)) => format!("ok:{}", hexf(&o.challenge)), Some(Err(_)) => "err".to_string() };
     ctx.stat(&format!("c14.bytes.{}", obs.split(':').next().unwrap()));
-    ctx.line(&format!("js.bytes {}", hexf(text.as_bytes())), &obs);
+    ctx.line(&format!("js.bytes {} {}", hexf(text.as_bytes()), value.map(|v| format!("is:{}", hexf(v))).unwrap_or("-".into())), &obs);
 }
 fn leaf_u32(ctx: &mut Ctx, text: &str) {
     let doc = format!("{{\"challenge\":\"AA\",\"timeout\":{}}}", text);
@@ -326,7 +328,12 @@ pub fn gen(ctx: &mut Ctx) {
         let mut b = ctx.rng.bytes(k);
         if i % 2 == 1 { for x in b.iter_mut() { if ctx.rng.bool() { *x = *ctx.rng.pick(&[0xfbu8, 0xff, 0xfe, 0x3e, 0x3f]); } } }   // many '-' '_' / '+' '/' symbols
         for t in [format!("\"{}\"", b64u(&b)), format!("\"{}\"", b64u_padded(&b)), format!("\"{}\"", b64(&b)), format!("\"{}\"", b64_nopad(&b)), format!("[{}]", b.iter().map(|x| x.to_string()).collect::<Vec<_>>().join(",")),
-                  format!("[ {} ]", b.iter().map(|x| format!("{} ", x)).collect::<Vec<_>>().join(", "))] { leaf_bytes(ctx, &t); }
+                  format!("[ {} ]", b.iter().map(|x| format!("{} ", x)).collect::<Vec<_>>().join(", "))] { leaf_bytes_of(ctx, &t, Some(&b)); }
+    }
+    // long members, around and above the decoders' reservation cap: the cap bounds the reservation, not the value
+    for k in [4095usize, 4096, 4097, 5000, 9000] {
+        let b = ctx.rng.bytes(k);
+        for t in [format!("\"{}\"", b64u(&b)), format!("\"{}\"", b64(&b)), format!("[{}]", b.iter().map(|x| x.to_string()).collect::<Vec<_>>().join(","))] { leaf_bytes_of(ctx, &t, Some(&b)); }
     }
     for t in ["\"!!\"", "\"AA=A\"", "\"A\"", "\"====\"", "\" AAAA\"", "[256]", "[-1]", "[1.0]", "[\"1\"]", "[1,2,", "null", "{}", "12", "true", "\"\\u0041\\u0041\"", "\"AAA+\"", "\"AAA-\"", "\"A-+A\"", "[]", "\"\""] { leaf_bytes(ctx, t); }
     let nums = ["0", "1", "60000", "4294967295", "4294967296", "-1", "-0", "1.0", "1.5", "1e3", "1E3", "1e-3", "6.0e4", "0.0", "2.5e9", "4.294967295e9", "4.294967296e9", "1e30", "-1e30", "18446744073709551615", "18446744073709551616",
